@@ -1,2 +1,105 @@
+import PelModel.Cli
+import PelProofs.Cli
+/-
+  C11 — Only delete options remove files, and only the files they name.
+  In the model a directory is the list of its top-level regular files; the read-only modes (`listMode`, `allMode`,
+  `countMode`, `plidMode`, `srcMode`, `idMode`, `bmcIdMode`) are functions `Dir → CliOut` that return no directory at
+  all, and subdirectories are not even part of what `deleteMode` / `deleteAllMode` / `jsonMode` receive.  The frame
+  conditions that remain to be proved are those of the three modes that do change the directory.
+-/
 namespace Pel.C11
+
+/-- ★ `--delete E` removes at most one file, and only a top-level file whose name contains the processed id -/
+theorem delete_at_most_one (e : Text) (d : Dir) :
+    (deleteMode e d).2 = d ∨
+    ∃ pid f, processId e = some pid ∧ f ∈ d ∧ isInfix pid f.name = true ∧ (deleteMode e d).2 = d.erase f := by
+  cases hp : processId e with
+  | none => rw [deleteMode_bad d hp]; exact Or.inl rfl
+  | some pid =>
+    cases hf : d.find? (fun f => isInfix pid f.name) with
+    | none => rw [deleteMode_notfound hp hf]; exact Or.inl rfl
+    | some f =>
+      rw [deleteMode_found hp hf]
+      have hi : isInfix pid f.name = true := List.find?_some (p := fun (f : FileEntry) => isInfix pid f.name) hf
+      exact Or.inr ⟨pid, f, rfl, List.mem_of_find?_eq_some hf, hi, rfl⟩
+
+/-- everything else is untouched: every file other than the removed one is still there, unchanged -/
+theorem delete_keeps_others (e : Text) (d : Dir) (g : FileEntry) (hg : g ∈ (deleteMode e d).2) : g ∈ d := by
+  cases hp : processId e with
+  | none => rw [deleteMode_bad d hp] at hg; exact hg
+  | some pid =>
+    cases hf : d.find? (fun f => isInfix pid f.name) with
+    | none => rw [deleteMode_notfound hp hf] at hg; exact hg
+    | some f =>
+      rw [deleteMode_found hp hf] at hg
+      exact List.mem_of_mem_erase hg
+
+theorem delete_length (e : Text) (d : Dir) : d.length ≤ (deleteMode e d).2.length + 1 := by
+  cases hp : processId e with
+  | none => rw [deleteMode_bad d hp]; exact Nat.le_succ _
+  | some pid =>
+    cases hf : d.find? (fun f => isInfix pid f.name) with
+    | none => rw [deleteMode_notfound hp hf]; exact Nat.le_succ _
+    | some f =>
+      rw [deleteMode_found hp hf]
+      simp only
+      rw [List.length_erase_of_mem (List.mem_of_find?_eq_some hf)]
+      omega
+
+/-- ★ if no top-level file name contains the id, nothing is removed and "PEL not found" is reported -/
+theorem delete_not_found (e pid : Text) (d : Dir) (hp : processId e = some pid) (h : ∀ f ∈ d, isInfix pid f.name = false) :
+    deleteMode e d = ({ stdout := s "PEL not found\n", stderrLines := 0, exit := 0 }, d) := by
+  have hf : d.find? (fun f => isInfix pid f.name) = none := by
+    rw [List.find?_eq_none]
+    intro f hfd
+    simp [h f hfd]
+  exact deleteMode_notfound hp hf
+
+/-- an id of the wrong length is rejected before anything is touched -/
+theorem delete_bad_id (e : Text) (d : Dir) (hp : processId e = none) : (deleteMode e d).2 = d ∧ (deleteMode e d).1.exit = 1 := by
+  rw [deleteMode_bad d hp]
+  exact ⟨rfl, rfl⟩
+
+/-- ★ `--delete-all` removes all the top-level regular files (and nothing else exists in its argument) -/
+theorem delete_all (d : Dir) : (deleteAllMode d).2 = [] := by
+  rfl
+
+/-- ★ `--json` creates only files named `<pel file>.<entry id>.json`, one per decodable selected input -/
+theorem json_creates_only (env : Env) (o : CliOpts) (clean : Bool) (d : Dir) :
+    ∀ c ∈ (jsonMode env o clean d).created, ∃ f ∈ d, ∃ eid j, parsePEL env o.cfg f.data = .doc eid j ∧
+      c = (f.name ++ [46] ++ eid ++ s ".json", prettyPrint 34 (dumps j)) := by
+  intro c hc
+  simp only [jsonMode, List.mem_filterMap, List.mem_map, List.mem_filter] at hc
+  obtain ⟨p, ⟨f, ⟨hfd, _⟩, hpf⟩, hc⟩ := hc
+  subst hpf
+  simp only at hc
+  cases hfo : fullOf env o.cfg f with
+  | some x =>
+    obtain ⟨eid, j⟩ := x
+    simp only [hfo, Option.some.injEq] at hc
+    exact ⟨f, hfd, eid, j, fullOf_some hfo, hc.symm⟩
+  | skip => simp [hfo] at hc
+  | diag => simp [hfo] at hc
+
+/-- ★ `--json` removes inputs only with `--clean`, and then only inputs whose document was produced -/
+theorem json_removes_only (env : Env) (o : CliOpts) (clean : Bool) (d : Dir) :
+    (clean = false → (jsonMode env o clean d).removed = []) ∧
+    ∀ n ∈ (jsonMode env o clean d).removed, ∃ f ∈ d, f.name = n ∧ ∃ eid j, parsePEL env o.cfg f.data = .doc eid j := by
+  refine ⟨fun h => by simp [jsonMode, h], ?_⟩
+  intro n hn
+  cases clean with
+  | false => simp [jsonMode] at hn
+  | true =>
+    simp only [jsonMode, if_true, List.mem_filterMap, List.mem_map, List.mem_filter] at hn
+    obtain ⟨p, ⟨f, ⟨hfd, _⟩, hpf⟩, hc⟩ := hn
+    subst hpf
+    simp only at hc
+    cases hfo : fullOf env o.cfg f with
+    | some x =>
+      obtain ⟨eid, j⟩ := x
+      simp only [hfo, Option.some.injEq] at hc
+      exact ⟨f, hfd, hc, eid, j, fullOf_some hfo⟩
+    | skip => simp [hfo] at hc
+    | diag => simp [hfo] at hc
+
 end Pel.C11
